@@ -600,6 +600,9 @@ class FnTr:
                 self.fail(e, "`in` on a %s and a %s" % (lty, rty))
             s = "(s_in %s %s)" % (lt, rt)
             return s if isinstance(op, ast.In) else "(negb %s)" % s
+        # `c == x` is `x == c`
+        if isinstance(l, ast.Constant) and not isinstance(r, ast.Constant) and isinstance(op, (ast.Eq, ast.NotEq)):
+            l, r = r, l
         # type the constant side by the other side
         if isinstance(l, ast.Constant) and not isinstance(r, ast.Constant):
             rt, ty = self.expr(r, env)
